@@ -29,7 +29,7 @@ PROBES = ["pred_chunk_lacks_fold", "one_row_last_chunk", "spectrum_split_across_
           "spectrum_within_one_conf_chunk", "subsampled", "rowgroup_inside_chunk", "spill_files>=2",
           "switch_in_get_rows", "switch_in_save_chunks", "parquet", "workers>=8", "dedup_off", "rollup_off",
           "multi_file", "order_sensitive_learner", "sklearn_learner", "merge_chunk_small", "protein_level",
-          "pep_files_compared_strictly", "pep_files_checked_for_shape_only", "feature_with_missing_values", "ensemble_mode"]
+          "pep_files_compared_strictly", "pep_files_checked_for_shape_only", "feature_with_missing_values", "ensemble_mode", "proba_only_learner"]
 RULE = (
     "Each scenario = one seeded tie-free data set + configuration (learner, folds, seeds, rollup/decoy/dedup "
     "switches) executed as reference (text, knobs > file, 1 worker, no threads) and as perturbed execution "
@@ -69,7 +69,7 @@ def make_scenario(seed):
     smallest = per_file * min(dp.get("size_factors") or [1.0])
     while folds > 2 and smallest / folds < 45:
         folds -= 1
-    learner = rng.choices(["olda", "rlda", "svc", "perc"], weights=[70, 12, 10, 8])[0]
+    learner = rng.choices(["olda", "rlda", "svc", "perc", "plda"], weights=[62, 10, 10, 8, 10])[0]
     r = rng.random()
     cap = None if r < 0.75 else rng.randint(40, max(41, n_rows_guess // 2))
     cfg = {
@@ -77,7 +77,7 @@ def make_scenario(seed):
         "folds": folds,
         "test_fdr": rng.choice([0.1037, 0.2113, 0.2113, 0.3071]),
         "train_fdr": rng.choice([0.1037, 0.2113]),
-        "max_iter": rng.choice([1, 2, 3]) if learner in ("olda", "rlda") else rng.choice([1, 2]),
+        "max_iter": rng.choice([1, 2, 3]) if learner in ("olda", "rlda", "plda") else rng.choice([1, 2]),
         "seed": rng.randint(0, 10**6),
         "subset_max_train": cap,
         "max_workers": 1,
@@ -306,6 +306,7 @@ def run_scenario(scn, workdir):
         "multi_file": int(len(tables) > 1),
         "order_sensitive_learner": int(cfg["learner"] == "olda"),
         "sklearn_learner": int(cfg["learner"] in ("svc", "perc")),
+        "proba_only_learner": int(cfg["learner"] == "plda"),
         "merge_chunk_small": int(kn.get("MERGE_SORT_CHUNK_SIZE", 10**9) < 10),
         "protein_level": int(scn.get("fasta_seed") is not None),
         "feature_with_missing_values": int(bool(scn["data"].get("nan_feature"))),
@@ -335,7 +336,7 @@ def run_scenario(scn, workdir):
     probes["spectrum_within_one_conf_chunk"] = int(same > 0 and ccs < nmax)
     # prediction chunk lacking a fold: from the reference's recorded fold membership
     pcs = kn.get("CHUNK_SIZE_ROWS_PREDICTION", 10**9)
-    if ref.models is not None and pcs < nmax and cfg["learner"] in ("olda", "rlda"):
+    if ref.models is not None and pcs < nmax and cfg["learner"] in ("olda", "rlda", "plda"):
         owner = {}
         for i, m in enumerate(ref.models):
             for e in getattr(m.estimator, "pred_log_", []):
